@@ -32,6 +32,29 @@ def densclose(a, b):
                    "n_bad": int((~ok).sum())}
 
 
+def float32_explained(mod, xp, lj, idx, a, b, max_rows=64):
+    """True when every disagreement between two evaluations of one flow's log-density is within three times the
+    change that a one- or two-ulp (float32) perturbation of the input produces: 'float32 accuracy' for a flow
+    that is steep at that point. idx = rows that disagree; a, b = the two values per row."""
+    import torch
+
+    if len(idx) > max_rows:
+        return False
+    t = torch.from_numpy(xp[idx]).type(torch.float32)
+    with torch.no_grad():
+        base = mod.log_prob(t).cpu().numpy().astype("float64")
+        spread = np.zeros(len(idx))
+        for sign in (1.0, -1.0):
+            tt = t.clone()
+            for _ in range(2):
+                tt = torch.nextafter(tt, tt + sign * torch.ones_like(tt))
+                v = mod.log_prob(tt).cpu().numpy().astype("float64")
+                spread = np.maximum(spread, np.abs(v - base))
+    diff = np.abs(np.asarray(a, dtype=float) - np.asarray(b, dtype=float))
+    tol = ATOL + RTOL * np.maximum(np.abs(a), np.abs(b))
+    return bool(np.all(diff <= tol + 3.0 * spread))
+
+
 class INSMonitor:
     def __init__(self, ctx):
         self.ctx = ctx
@@ -120,26 +143,63 @@ class INSMonitor:
             ctx.violation("INS-DENS-unit-cube", {"store": name, "where": where, "iteration": it})
         if np.any(lq[:, 0] != 0):
             ctx.violation("INS-DENS-prior-column", {"store": name, "where": where, "iteration": it})
-        # (a) nessai's own re-evaluation
-        logQ2, lq2 = p.compute_meta_proposal_samples(x)
-        margin = np.min(np.minimum(u, 1 - u), axis=1)
-        ok, d = densclose(lq, lq2)
-        if not ok:
-            d["margin"] = float(margin[d["index"][0]])
-            d["sample_it"] = int(x["it"][d["index"][0]])
-            ctx.violation("INS-DENS-logq", {"store": name, "where": where, "iteration": it, "route": "nessai", **(d or {})})
-        # (b) independent evaluation of each saved flow
         import torch
 
         if p.reparameterisation == "logit":
             inner = (u > 2e-8) & (u < 1 - 2e-8)
             rows = np.all(inner, axis=1)
-            xp = np.log(u[rows]) - np.log1p(-u[rows])
-            lj = -np.sum(np.log(u[rows]) + np.log1p(-u[rows]), axis=1)
+            with np.errstate(divide="ignore", invalid="ignore"):
+                xp_all = np.log(u) - np.log1p(-u)
+                lj_all = -np.sum(np.log(u) + np.log1p(-u), axis=1)
         else:
             rows = np.ones(n, dtype=bool)
-            xp = u.copy()
-            lj = np.zeros(n)
+            xp_all = u.copy()
+            lj_all = np.zeros(n)
+
+        def explained(a, b, col_of, row_of):
+            """Are all disagreements between tables a and b float32 noise of a steep flow? (narrow relaxation)"""
+            a = np.asarray(a, dtype=float)
+            b = np.asarray(b, dtype=float)
+            with np.errstate(invalid="ignore"):
+                bad = ~((np.abs(a - b) <= ATOL + RTOL * np.maximum(np.abs(a), np.abs(b)))
+                        | (np.isinf(a) & np.isinf(b) & (np.sign(a) == np.sign(b))))
+            if a.ndim == 1:
+                bad = bad[:, None]
+                a = a[:, None]
+                b = b[:, None]
+            if p.flow is None or not np.all(np.isfinite(a[bad])) or not np.all(np.isfinite(b[bad])):
+                return False
+            for c in np.flatnonzero(bad.any(axis=0)):
+                j = col_of(c)
+                if j < 1 or j > p.flow.n_models:
+                    return False
+                ridx = row_of(np.flatnonzero(bad[:, c]))
+                if not np.all(rows[ridx]):
+                    return False
+                mod = p.flow.models[j - 1]
+                was = mod.training
+                mod.eval()
+                try:
+                    if not float32_explained(mod, xp_all, lj_all, ridx, a[bad[:, c], c], b[bad[:, c], c]):
+                        return False
+                finally:
+                    if was:
+                        mod.train()
+            ctx.probe("ins_dens_steep_flow_float32_noise")
+            return True
+
+        # (a) nessai's own re-evaluation
+        logQ2, lq2 = p.compute_meta_proposal_samples(x)
+        margin = np.min(np.minimum(u, 1 - u), axis=1)
+        ok, d = densclose(lq, lq2)
+        if not ok and not explained(lq, lq2, lambda c: int(c), lambda r: r):
+            d["margin"] = float(margin[d["index"][0]])
+            d["sample_it"] = int(x["it"][d["index"][0]])
+            ctx.violation("INS-DENS-logq", {"store": name, "where": where, "iteration": it, "route": "nessai", **(d or {})})
+        # (b) independent evaluation of each saved flow
+        xp = xp_all[rows]
+        lj = lj_all[rows]
+        ridx_all = np.flatnonzero(rows)
         if rows.any() and p.flow is not None and p.flow.n_models:
             t = torch.from_numpy(xp).type(torch.get_default_dtype())
             with torch.no_grad():
@@ -149,7 +209,7 @@ class INSMonitor:
                         mod.eval()
                     ref = mod.log_prob(t).cpu().numpy().astype("float64") + lj
                     ok, d = densclose(lq[rows, j + 1], ref)
-                    if not ok:
+                    if not ok and not explained(lq[rows, j + 1], ref, lambda c, j=j: j + 1, lambda r: ridx_all[r]):
                         ctx.violation("INS-DENS-logq", {"store": name, "where": where, "iteration": it,
                                                         "route": "independent", "flow": j, **(d or {})})
         # weights = fraction of samples drawn from each proposal
@@ -223,7 +283,16 @@ class INSMonitor:
 
         def mk_threshold(orig):
             def determine_log_likelihood_threshold(ns, samples, method="entropy", **kwargs):
-                out = orig(ns, samples, method=method, **kwargs)
+                try:
+                    out = orig(ns, samples, method=method, **kwargs)
+                except Exception as e:  # the next threshold must be a live sample's likelihood for every live set
+                    with ctx.guard():
+                        ctx.violation("C17-threshold-raises", {
+                            "iteration": int(ns.iteration), "size": int(len(samples)), "method": method,
+                            "min_samples": int(ns.min_samples), "min_remove": int(ns.min_remove),
+                            "max_samples": ns.max_samples, "nlive": int(ns.nlive),
+                            "exception": f"{type(e).__name__}: {e}"[:200]})
+                    raise
                 with ctx.guard():
                     mon.after_threshold(ns, samples, method, kwargs, out)
                 return out
@@ -346,7 +415,10 @@ class INSMonitor:
             else:
                 if n1 < ns.min_remove:
                     ctx.probe("ins_clamped_min_remove")
-                if n_below < ns.min_remove:
+                if size <= ns.min_remove:
+                    ctx.probe("ins_live_set_smaller_than_min_remove")
+                # no more than size - 1 samples can lie below a live sample's likelihood
+                if n_below < min(int(ns.min_remove), size - 1):
                     ctx.violation("C17-min-remove", detail)
         if capped:
             ctx.probe("ins_clamped_max_samples")
